@@ -115,6 +115,17 @@ func commitFileArtifact(
 		return nil
 	}
 	if status.WorkspaceFileStatus != fsutil.StatusRegularFile {
+		// A link to an object of this cache is a file that has already been
+		// committed, even if its checksum is not (or no longer) the recorded
+		// one -- e.g. because an earlier commit moved it into the cache and then
+		// failed on another file before any checksum was written. Record the
+		// checksum the object is stored under.
+		if status.WorkspaceFileStatus == fsutil.StatusLink && !art.SkipCache {
+			if cksum, ok := checksumOfCacheLink(ch, workPath); ok {
+				art.Checksum = cksum
+				return nil
+			}
+		}
 		return errors.Errorf("%s: expected regular file, got %s", workPath, status.WorkspaceFileStatus)
 	}
 	fileInfo, err := os.Stat(workPath)
@@ -164,6 +175,37 @@ func commitFileArtifact(
 		return checkoutFile(ch, workspaceDir, *art, strat, nil)
 	}
 	return nil
+}
+
+// checksumOfCacheLink returns the checksum of the cache object a workspace link
+// resolves to. ok is false if the link does not point at an existing regular
+// file stored under a checksum path of this cache.
+func checksumOfCacheLink(ch LocalCache, linkPath string) (cksum string, ok bool) {
+	target, err := os.Readlink(linkPath)
+	if err != nil {
+		return "", false
+	}
+	if !filepath.IsAbs(target) {
+		target = filepath.Join(filepath.Dir(linkPath), target)
+	}
+	relPath, err := filepath.Rel(ch.dir, target)
+	if err != nil {
+		return "", false
+	}
+	dir, file := filepath.Split(relPath)
+	dir = filepath.Clean(dir)
+	if len(dir) != 2 || file == "" || dir == ".." {
+		return "", false
+	}
+	cachePath, err := ch.PathForChecksum(dir + file)
+	if err != nil || cachePath != relPath {
+		return "", false
+	}
+	info, err := os.Lstat(target)
+	if err != nil || !info.Mode().IsRegular() {
+		return "", false
+	}
+	return dir + file, true
 }
 
 // commitBytes checksums the bytes from reader and results in said bytes being
